@@ -118,7 +118,11 @@ fn verif_witness_search_literals() {
 
 #[test]
 fn verif_witness_search_positions() {
-  let seps = [" ", "\n", "\r\n", "\t", " \n ", "/* a */", "/* a\n b */", "/* a\r\n b */", "// c\n", "/**/", "/** d */"];
+  let seps = [
+    " ", "\n", "\r\n", "\t", " \n ", "/* a */", "/* a\n b */", "/* a\r\n b */", "// c\n", "/**/", "/** d */",
+    // white space that is not ASCII: an error token for this lexer, never a crash
+    "\u{a0}", " \u{2003} ", "\u{3000}\n",
+  ];
   let toks = ["class", "A", "foo", "42", "\"str\"", "\"s\\\"t\"", "{", "}", "::", "\"\u{e9}\""];
   for s1 in seps.iter() {
     for t1 in toks.iter() {
@@ -130,8 +134,8 @@ fn verif_witness_search_positions() {
             println!("WITNESS: source text {src:?}: {why}");
             panic!("contract violated on the real lexer");
           }
-          // comments are tokens too: only whitespace separators have a known layout
-          if !s1.contains('/') && !s2.contains('/') {
+          // comments are tokens too: only (ASCII) whitespace separators have a known layout
+          if !s1.contains('/') && !s2.contains('/') && s1.is_ascii() && s2.is_ascii() {
             if let Err(why) = check_known_layout(&pieces) {
               println!("WITNESS: source text {src:?}: {why}");
               panic!("contract violated on the real lexer");
